@@ -25,6 +25,10 @@
     `EP.RowsPermuted l r l' r'` — `l'`, `r'` have the columns and dtypes of `l`, `r`, and `l'.rows` / `r'.rows` are
                              permutations (`List.Perm`) of `l.rows` / `r.rows`; their index is unconstrained.
 
+  BODY CONDITIONS.  The row-permutation theorems that CONCLUDE that both calls return frames assume `BodyOK` for the
+  original tables (SSJ/Props/Common.lean: present join values are strings, no `_id` in the output header; invariant
+  under row permutation, `RowsPermuted.bodyOK`); theorems about given results `… = .ok fr` do not.
+
   WHAT IS PROVED.
   1. INDEX (`presentation_index_irrelevant*`): replacing the index of either table by any labels changes NOTHING — the
      whole `Outcome` (result frame or exception, tokenizer flag) resp. `Except PyErr Frame` is EQUAL.  No hypothesis
@@ -202,33 +206,36 @@ theorem presentation_row_permutation_overlap (a : JoinArgs) (t : TokObj) (toks :
     (f : OverlapFilterObj) (l r l' r' : Frame)
     (hf : mkOverlapFilter a.threshold a.compOp a.allowMissing t = .ok f)
     (hv : validateTablesAttrs a.toTableArgs = .ok (l, r)) (hk : validateOutAndKeys a.toTableArgs l r = .ok ())
-    (hnd : ∀ s, (toks true s).Nodup) (hlen : r.rows.length < 2 ^ 40) (hp : RowsPermuted l r l' r') :
+    (hnd : ∀ s, (toks true s).Nodup) (hlen : r.rows.length < 2 ^ 40) (hp : RowsPermuted l r l' r')
+    (hb : BodyOK a.toTableArgs l r a.outSimScore) :
     ∃ fr fr', (overlapJoinPy a t toks cpu).result = .ok fr ∧
       (overlapJoinPy (a.withTables l' r') t toks cpu').result = .ok fr' ∧
       fr.columns = fr'.columns ∧
       (fr.rows.map (fun row => row.drop 1)).Perm (fr'.rows.map (fun row => row.drop 1)) :=
-  overlapJoinPy_perm a t toks cpu cpu' f l r l' r' hnd hf hv hk hlen hp
+  overlapJoinPy_perm a t toks cpu cpu' f l r l' r' hnd hf hv hk hlen hp hb
 
 /-- ROW ORDER, `overlap_coefficient_join` -/
 theorem presentation_row_permutation_ovc (a : JoinArgs) (t : TokObj) (toks : TokFn) (cpu cpu' : Int)
     (l r l' r' : Frame) (hv : validateJoin "OVERLAP_COEFFICIENT" a t = .ok (l, r))
-    (hnd : ∀ s, (toks true s).Nodup) (hlen : r.rows.length < 2 ^ 40) (hp : RowsPermuted l r l' r') :
+    (hnd : ∀ s, (toks true s).Nodup) (hlen : r.rows.length < 2 ^ 40) (hp : RowsPermuted l r l' r')
+    (hb : BodyOK a.toTableArgs l r a.outSimScore) :
     ∃ fr fr', (overlapCoefficientJoinPy a t toks cpu).result = .ok fr ∧
       (overlapCoefficientJoinPy (a.withTables l' r') t toks cpu').result = .ok fr' ∧
       fr.columns = fr'.columns ∧
       (fr.rows.map (fun row => row.drop 1)).Perm (fr'.rows.map (fun row => row.drop 1)) :=
-  overlapCoefficientJoinPy_perm a t toks cpu cpu' l r l' r' hnd hv hlen hp
+  overlapCoefficientJoinPy_perm a t toks cpu cpu' l r l' r' hnd hv hlen hp hb
 
 /-- ROW ORDER, `OverlapFilter.filter_tables` -/
 theorem presentation_row_permutation_overlapFilterTables (f : OverlapFilterObj) (a : TableArgs) (oss : Bool)
     (tok : String → List Tok) (cpu cpu' : Int) (l r l' r' : Frame)
     (hv : validateTablesAttrs a = .ok (l, r)) (hk : validateOutAndKeys a l r = .ok ())
-    (hnd : ∀ s, (tok s).Nodup) (hlen : r.rows.length < 2 ^ 40) (hp : RowsPermuted l r l' r') :
+    (hnd : ∀ s, (tok s).Nodup) (hlen : r.rows.length < 2 ^ 40) (hp : RowsPermuted l r l' r')
+    (hb : BodyOK a l r oss) :
     ∃ fr fr', overlapFilterTables f a oss tok cpu = .ok fr ∧
       overlapFilterTables f (a.withTables l' r') oss tok cpu' = .ok fr' ∧
       fr.columns = fr'.columns ∧
       (fr.rows.map (fun row => row.drop 1)).Perm (fr'.rows.map (fun row => row.drop 1)) :=
-  overlapFilterTables_perm f a oss tok cpu cpu' l r l' r' hnd hv hk hlen hp
+  overlapFilterTables_perm f a oss tok cpu cpu' l r l' r' hnd hv hk hlen hp hb
 
 /-- ROW ORDER, `edit_distance_join`, for any bag tokenizer obeying the q-gram count lemma `hcount` (`tau` is the
     integral threshold `int(floor(threshold))`) -/
@@ -236,24 +243,26 @@ theorem presentation_row_permutation_ed (a : JoinArgs) (t : TokObj) (toks : TokF
     (l r l' r' : Frame) (tau : Int) (hv : validateJoin "EDIT_DISTANCE" a t = .ok (l, r))
     (htau : PyV.toInt (PyV.floor a.threshold) = .int tau) (hlen : r.rows.length < 2 ^ 40) (hq : 0 ≤ t.qval)
     (hcount : ∀ s s' : String, ((toks false s).diff (toks false s')).length ≤ t.qval.toNat * lev s s')
-    (hp : RowsPermuted l r l' r') :
+    (hp : RowsPermuted l r l' r')
+    (hb : BodyOK a.toTableArgs l r a.outSimScore) :
     ∃ fr fr', (editDistanceJoinPy a t toks cpu).result = .ok fr ∧
       (editDistanceJoinPy (a.withTables l' r') t toks cpu').result = .ok fr' ∧
       fr.columns = fr'.columns ∧
       (fr.rows.map (fun row => row.drop 1)).Perm (fr'.rows.map (fun row => row.drop 1)) :=
-  editDistanceJoinPy_perm a t toks cpu cpu' l r l' r' tau hv htau hlen hq hcount hp
+  editDistanceJoinPy_perm a t toks cpu cpu' l r l' r' tau hv htau hlen hq hcount hp hb
 
 /-- … in particular with the real q-gram tokenizer (`QgramTokenizer(qval=q, padding=pad, return_set=False)`) -/
 theorem presentation_row_permutation_ed_qgrams (a : JoinArgs) (t : TokObj) (toks : TokFn) (cpu cpu' : Int)
     (l r l' r' : Frame) (tau : Int) (pad : Bool) (hv : validateJoin "EDIT_DISTANCE" a t = .ok (l, r))
     (htau : PyV.toInt (PyV.floor a.threshold) = .int tau) (hlen : r.rows.length < 2 ^ 40) (hq : 0 ≤ t.qval)
-    (htok : toks false = qgrams t.qval.toNat pad) (hp : RowsPermuted l r l' r') :
+    (htok : toks false = qgrams t.qval.toNat pad) (hp : RowsPermuted l r l' r')
+    (hb : BodyOK a.toTableArgs l r a.outSimScore) :
     ∃ fr fr', (editDistanceJoinPy a t toks cpu).result = .ok fr ∧
       (editDistanceJoinPy (a.withTables l' r') t toks cpu').result = .ok fr' ∧
       fr.columns = fr'.columns ∧
       (fr.rows.map (fun row => row.drop 1)).Perm (fr'.rows.map (fun row => row.drop 1)) :=
   presentation_row_permutation_ed a t toks cpu cpu' l r l' r' tau hv htau hlen hq
-    (fun s s' => by rw [htok]; exact qgrams_diff_le _ pad s s') hp
+    (fun s s' => by rw [htok]; exact qgrams_diff_le _ pad s s') hp hb
 
 /-- ROW ORDER, jaccard / cosine / dice, NON-STRADDLING pairs: for two source rows with present join values, not both
     tokenizing to nothing, whose raw and rounded similarity lie on the same side of the threshold, the results of the
@@ -395,6 +404,7 @@ example : ∃ fr fr', (overlapJoinPy A {} tk 1).result = .ok fr ∧
     (overlapJoinPy (A.withTables L' R') {} tk 4).result = .ok fr' ∧ fr.columns = fr'.columns ∧
     (fr.rows.map (fun row => row.drop 1)).Perm (fr'.rows.map (fun row => row.drop 1)) :=
   presentation_row_permutation_overlap A {} tk 1 4 F L R L' R' rfl (by decide) (by decide) tk_nodup (by decide) permuted
+    (by decide +kernel)
 
 /-- … and the permuted call indeed lists the same rows in ANOTHER order (so "permutation" cannot be improved to
     "equal"): first the matches of right row 9, then of right row 7 -/
@@ -409,6 +419,7 @@ example : ∃ fr fr', (overlapCoefficientJoinPy A {} tk 1).result = .ok fr ∧
     fr.columns = fr'.columns ∧
     (fr.rows.map (fun row => row.drop 1)).Perm (fr'.rows.map (fun row => row.drop 1)) :=
   presentation_row_permutation_ovc A {} tk 1 1 L R L' R' (by decide) tk_nodup (by decide) permuted
+    (by decide +kernel)
 
 /-- edit distance with the real 2-gram tokenizer on the row-permuted fixture of C03 -/
 example : ∃ fr fr', (editDistanceJoinPy C03.exA C03.exT C03.exToks 1).result = .ok fr ∧
@@ -418,7 +429,7 @@ example : ∃ fr fr', (editDistanceJoinPy C03.exA C03.exT C03.exToks 1).result =
     (fr.rows.map (fun row => row.drop 1)).Perm (fr'.rows.map (fun row => row.drop 1)) :=
   presentation_row_permutation_ed_qgrams C03.exA C03.exT C03.exToks 1 1 C03.exL C03.exR _ _ 1 true C03.ex_valid
     C03.ex_tau (by decide) (by decide) rfl
-    ⟨rfl, rfl, (List.reverse_perm _), rfl, rfl, (List.reverse_perm _)⟩
+    ⟨rfl, rfl, (List.reverse_perm _), rfl, rfl, (List.reverse_perm _)⟩ (by decide +kernel)
 
 section SetSim
 open EntrySetSim.Ex
